@@ -333,6 +333,12 @@ theorem inv_interrupt (s : St) (p : Pid) (h : Inv s) : Inv (interrupt s p) := by
   · rename_i hpc
     have hf : (s.kind p, p) ∈ s.files := h.own p (by simp [hpc, hasFile])
     exact h.move p _ (fun _ => hf) (fun _ => rfl) (fun _ => Or.inl rfl) (fun e => by cases e)
+  · rename_i hpc
+    have hf : (s.kind p, p) ∈ s.files := h.own p (by simp [hpc, hasFile])
+    exact h.move p _ (fun _ => hf) (fun _ => rfl) (fun _ => Or.inl rfl) (fun e => by cases e)
+  · rename_i l hpc
+    exact h.move p _ (by simp [hasFile]) (fun hm => absurd hm (h.noFile (by simp [hpc, hasFile])))
+      (fun hd => Or.inr (h.respOther p (Or.inl (by simp [hpc, engaged])) hd)) (fun e => by cases e)
   · exact h
 
 theorem inv_stepE (s : St) (e : Ev) (h : Inv s) : Inv (stepE s e) := by
@@ -398,12 +404,18 @@ theorem noRelFail_stepE (s : St) (ev : Ev) (h : Inv s) (hn : ∀ i e, s.pc i ≠
   | call p => exact noRelFail_step s p h hn
   | intr p =>
     intro i e
-    simp only [stepE, interrupt]
-    split
-    · by_cases hip : i = p
-      · subst hip; simp [setPC]
-      · simp [setPC, upd, hip]; exact hn i e
-    · exact hn i e
+    by_cases hip : i = p
+    · subst hip
+      simp only [stepE, interrupt]
+      split
+      · simp [setPC]
+      · simp [setPC]
+      · simp [setPC]
+      · exact hn i e
+    · have : (stepE s (.intr p)).pc i = s.pc i := by
+        simp only [stepE, interrupt]
+        split <;> simp [setPC, upd, hip]
+      rw [this]; exact hn i e
 
 theorem noRelFail_runE (s : St) (evs : List Ev) (h : Inv s) (hn : ∀ i e, s.pc i ≠ .failedRel e) :
     ∀ i e, (runE s evs).pc i ≠ .failedRel e := by
